@@ -6,6 +6,10 @@ import NeumannModel.Graph.Model
      reset | cnode <label> <v> | cedge <a> <b> <d> <ty> <v> | dedge <e> | dnode <n> <hint|->
      unode <n> <label|-> <v> | uedge <e> <v>
      neigh <n> <out|in|both> <ty|-> | deg <n> | trav <n> <out|in|both> <depth> <ty|->
+     alabel <n> <l> | rlabel <n> <l> | bcn <l.v/l.v/…|-> | bce <a.b.d.ty.v/…|-> | bde <e/e/…|-> |
+     bdn <n.h.h…/n/…|-> (node then the iteration order of its edge set) | bun <n.l|-.v/…|-> | reopen
+     eof <n> <dir> | eofp <n> <dir> <skip> <limit|-> | neighp <n> <dir> <ty|-> <skip> <limit|-> | degty <n> <ty>
+     alledges | allnodes | counts | gedge <e> | gnode <n> | nex <n>
      image | wf
    concurrent, from the current state:
      run <thread;thread;…> <schedule>      thread = op+op+… , op = cnode:l:v | cedge:a:b:d:ty:v |
@@ -29,6 +33,15 @@ def showRes : Res → String
   | .edgeNotFound e => s!"err edge_not_found {e}"
   | .storage => "err storage"
   | .partialDel => "err partial"
+  | .ids first cnt => "ok ids " ++ showNats ((List.range cnt).map (· + first))
+  | .batchInvalid idx n => s!"err batch_invalid {idx} node_not_found {n}"
+  | .batchDel del failed => "ok deleted " ++ showNats del ++ " failed " ++
+      (if failed.isEmpty then "-" else ",".intercalate (failed.map fun (i, x, c) =>
+        s!"{i}:{x}:" ++ (match c with | .notFound => "not_found" | .storage => "storage" | .partialDel => "partial")))
+  | .count n => s!"ok count {n}"
+
+def showLabels (l : List Nat) : String :=
+  if l.isEmpty then "-" else ".".intercalate (l.map toString)
 
 def showOptList : Option (List Nat) → String
   | none => "err node_not_found"
@@ -38,7 +51,7 @@ def showImage (s : St) : String :=
   let ns := (List.range (s.nn + 2))
   let es := (List.range (s.ne + 2))
   let nodes := ns.filterMap fun n => match s.kv (.node n) with
-    | some (.node l v) => some s!"{n}({l},{v})"
+    | some (.node l v) => some s!"{n}({showLabels l},{v})"
     | some _ => some s!"{n}(?)"
     | none => none
   let edges := es.filterMap fun e => match s.kv (.edge e) with
@@ -63,8 +76,34 @@ def parseOptNat (s : String) : Option (Option Nat) :=
 def parseHint (s : String) : Option (List Nat) :=
   if s = "-" then some [] else (s.splitOn ".").mapM (·.toNat?)
 
+def parseItems {α : Type} (s : String) (f : List String → Option α) : Option (List α) :=
+  if s = "-" then some [] else (s.splitOn "/").mapM fun it => f (it.splitOn ".")
+
 def parseOp (s : String) : Option Op :=
   match s.splitOn ":" with
+  | ["alabel", n, l] => do pure (.addLabel (← n.toNat?) (← l.toNat?))
+  | ["rlabel", n, l] => do pure (.removeLabel (← n.toNat?) (← l.toNat?))
+  | ["bcn", items] => do
+      pure (.batchCreateNodes (← parseItems items fun
+        | [l, v] => do pure ((← l.toNat?), (← v.toNat?))
+        | _ => none))
+  | ["bce", items] => do
+      pure (.batchCreateEdges (← parseItems items fun
+        | [a, b, d, ty, v] => do
+            pure ⟨(← a.toNat?), (← b.toNat?), (← d.toNat?) != 0, (← ty.toNat?), (← v.toNat?)⟩
+        | _ => none))
+  | ["bde", items] => do
+      pure (.batchDeleteEdges (← parseItems items fun
+        | [e] => e.toNat?
+        | _ => none))
+  | ["bdn", items] => do
+      pure (.batchDeleteNodes (← parseItems items fun
+        | n :: hint => do pure ((← n.toNat?), (← hint.mapM (·.toNat?)))
+        | _ => none))
+  | ["bun", items] => do
+      pure (.batchUpdateNodes (← parseItems items fun
+        | [n, l, v] => do pure ((← n.toNat?), (← parseOptNat l), (← v.toNat?))
+        | _ => none))
   | ["cnode", l, v] => do pure (.createNode (← l.toNat?) (← v.toNat?))
   | ["cedge", a, b, d, ty, v] => do
       pure (.createEdge (← a.toNat?) (← b.toNat?) ((← d.toNat?) != 0) (← ty.toNat?) (← v.toNat?))
@@ -85,6 +124,12 @@ def showThread (t : Thread) : String :=
   ",".intercalate (t.trace.reverse.map fun (st, k) => showSite st ++ " " ++ showKey k) ++
   (if t.finished then "" else "#unfinished")
 
+def showRec (x : Nat × EdgeRec) : String :=
+  s!"{x.1}({x.2.src}>{x.2.dst},{if x.2.directed then 1 else 0},{x.2.ty},{x.2.ver})"
+
+def showRecs (l : List (Nat × EdgeRec)) : String :=
+  if l.isEmpty then "-" else " ".intercalate (l.map showRec)
+
 def graphStep (s : St) (line : String) : St × String :=
   let bad := (s, "bad-op")
   let seq (op : Option Op) : St × String :=
@@ -99,6 +144,50 @@ def graphStep (s : St) (line : String) : St × String :=
   | ["dnode", n, h] => seq (parseOp s!"dnode:{n}:{h}")
   | ["unode", n, l, v] => seq (parseOp s!"unode:{n}:{l}:{v}")
   | ["uedge", e, v] => seq (parseOp s!"uedge:{e}:{v}")
+  | ["alabel", n, l] => seq (parseOp s!"alabel:{n}:{l}")
+  | ["rlabel", n, l] => seq (parseOp s!"rlabel:{n}:{l}")
+  | ["bcn", items] => seq (parseOp s!"bcn:{items}")
+  | ["bce", items] => seq (parseOp s!"bce:{items}")
+  | ["bde", items] => seq (parseOp s!"bde:{items}")
+  | ["bdn", items] => seq (parseOp s!"bdn:{items}")
+  | ["bun", items] => seq (parseOp s!"bun:{items}")
+  | ["reopen"] => (reopen s, "ok")
+  | ["eof", n, d] => match n.toNat?, parseDir d with
+      | some n, some d => (s, match edgesOf s.kv n d with
+          | some l => "ok " ++ showRecs l
+          | none => "err node_not_found")
+      | _, _ => bad
+  | ["eofp", n, d, sk, lim] => match n.toNat?, parseDir d, sk.toNat?, parseOptNat lim with
+      | some n, some d, some sk, some lim => (s, match edgesOfPage s.kv n d sk lim with
+          | some (l, tot, more) => s!"ok {showRecs l} total={tot} more={if more then 1 else 0}"
+          | none => "err node_not_found")
+      | _, _, _, _ => bad
+  | ["neighp", n, d, ty, sk, lim] => match n.toNat?, parseDir d, parseOptNat ty, sk.toNat?, parseOptNat lim with
+      | some n, some d, some ty, some sk, some lim => (s, match neighborsPage s.kv n d ty sk lim with
+          | some (l, tot, more) => s!"ok {showNats l} total={tot} more={if more then 1 else 0}"
+          | none => "err node_not_found")
+      | _, _, _, _, _ => bad
+  | ["degty", n, ty] => match n.toNat?, ty.toNat? with
+      | some n, some ty => (s, match outDegreeByType s.kv n ty, inDegreeByType s.kv n ty, degreeByType s.kv n ty with
+          | some o, some i, some t => s!"ok {o} {i} {t}"
+          | _, _, _ => "err node_not_found")
+      | _, _ => bad
+  | ["alledges"] => (s, showRecs (allEdges s))
+  | ["allnodes"] => (s, showNats (allNodeIds s))
+  | ["counts"] => (s, s!"{nodeCount s} {edgeCount s}")
+  | ["gedge", e] => match e.toNat? with
+      | some e => (s, match edgeAt s.kv e with
+          | some r => "ok " ++ showRec (e, r)
+          | none => s!"err edge_not_found {e}")
+      | none => bad
+  | ["gnode", n] => match n.toNat? with
+      | some n => (s, match s.kv (.node n) with
+          | some v => s!"ok {showLabels (labelsOf v)},{propOf v}"
+          | none => s!"err node_not_found {n}")
+      | none => bad
+  | ["nex", n] => match n.toNat? with
+      | some n => (s, if nodeEx s.kv n then "1" else "0")
+      | none => bad
   | ["neigh", n, d, ty] => match n.toNat?, parseDir d, parseOptNat ty with
       | some n, some d, some ty => (s, showOptList (neighbors s.kv n d ty))
       | _, _, _ => bad
